@@ -39,12 +39,12 @@ theorem count_emitLast (name : String) (pos : Nat) (r : Run) (n : String) (p : N
   count_emitSeen name pos r n p r.last
 
 /-- **the executor's own events**: every execution ends with exactly one verdict event, matching the returned result's
-`SuccessAll`, followed by exactly one `OnDone` — and nothing after -/
+`SuccessAll`, followed by exactly one `OnDone` — and nothing after; both carry exactly the result and the error the caller receives -/
 theorem one_done_one_verdict (fuel : Nat) (ps : List Policy) (r : Run) (res : PR) (r' : Run)
     (h : execute fuel ps r = some (res, r')) :
     ∃ r1, executeStack fuel 0 ps r = some (res, r1) ∧
-      r'.log = r1.log ++ [⟨if res.successAll then "ex.onSuccess" else "ex.onFailure", 0, r1.attempts, r1.execs, none⟩,
-                          ⟨"ex.onDone", 0, r1.attempts, r1.execs, none⟩] := by
+      r'.log = r1.log ++ [⟨if res.successAll then "ex.onSuccess" else "ex.onFailure", 0, r1.attempts, r1.execs, some res.outcome⟩,
+                          ⟨"ex.onDone", 0, r1.attempts, r1.execs, some res.outcome⟩] := by
   unfold execute at h
   split at h
   · simp at h
@@ -52,7 +52,7 @@ theorem one_done_one_verdict (fuel : Nat) (ps : List Policy) (r : Run) (res : PR
     simp only [Option.some.injEq, Prod.mk.injEq] at h
     obtain ⟨rfl, rfl⟩ := h
     refine ⟨r1, hin, ?_⟩
-    split <;> simp [Run.emit, *]
+    split <;> simp [Run.emit, Run.emitSeen, *]
 
 /-- **per handled failure, the retry policy's events**: `OnFailure` always; `OnAbort` iff the failure matches an abort
 condition; `OnRetriesExceeded` iff the budget is exhausted and it is not an abort; never both -/
